@@ -24,6 +24,7 @@ package main
 
 import (
 	"go/ast"
+	"go/constant"
 	"go/token"
 	"go/types"
 	"strings"
@@ -480,4 +481,91 @@ func labelTarget(fn *Func, name string) (ast.Stmt, bool) {
 		return true
 	})
 	return out, out != nil
+}
+
+// C08-R10: a composed pragma answers "some element asks for it".
+//
+// Pragmas (the list a slice carries) implements Pragma by combining its
+// elements.  For the boolean requests (Materialize, Exclusive) the
+// combination is a disjunction: pipeline() must cut at a slice that carries
+// ExperimentalMaterialize whatever other pragmas accompany it, and the
+// executor must clamp an Exclusive task whatever else is asked.  Decided per
+// method: every return inside the loop over the receiver's elements returns
+// the constant true and is reached only when that element's own method said
+// true (its guards are evaluated under "the element says false" and must
+// exclude the return); every return outside the loop returns the constant
+// false; the loop has such a return.  (Seed C08-c1 turned "any" into "all":
+// the guard and both returns were still there.)
+func c08r10(c *RC) {
+	pr := c.P
+	n := 0
+	for _, name := range []string{"Materialize", "Exclusive"} {
+		fn := c.MustFn(".Pragmas." + name)
+		if fn == nil {
+			continue
+		}
+		fq := fn.QName()
+		recv := recvOf(fn)
+		var loop *ast.RangeStmt
+		inspectNoLit(fn.Body, func(nd ast.Node) bool {
+			if rs, ok := nd.(*ast.RangeStmt); ok && loop == nil {
+				if id, ok := ast.Unparen(rs.X).(*ast.Ident); ok && id.Name == recv {
+					loop = rs
+				}
+			}
+			return true
+		})
+		if loop == nil {
+			c.Undecide("%s: no loop over the receiver's elements", fq)
+			continue
+		}
+		var elem types.Object
+		if id, ok := loop.Value.(*ast.Ident); ok {
+			elem = fn.Pkg.Info.Defs[id]
+		}
+		elemFalse := func(e ast.Expr) (bool, bool) {
+			k, ok := ast.Unparen(e).(*ast.CallExpr)
+			if !ok {
+				return false, false
+			}
+			se, ok := k.Fun.(*ast.SelectorExpr)
+			if !ok || se.Sel.Name != name {
+				return false, false
+			}
+			if id, ok := ast.Unparen(se.X).(*ast.Ident); ok && elem != nil && fn.Pkg.Info.Uses[id] == elem {
+				return false, true
+			}
+			return false, false
+		}
+		constBool := func(e ast.Expr) (bool, bool) {
+			if tv, ok := fn.Pkg.Info.Types[e]; ok && tv.Value != nil && tv.Value.Kind() == constant.Bool {
+				return constant.BoolVal(tv.Value), true
+			}
+			return false, false
+		}
+		inside, okIn, okOut := 0, true, true
+		why := ""
+		inspectNoLit(fn.Body, func(nd ast.Node) bool {
+			ret, ok := nd.(*ast.ReturnStmt)
+			if !ok || len(ret.Results) != 1 {
+				return true
+			}
+			v, isC := constBool(ret.Results[0])
+			if ret.Pos() >= loop.Body.Pos() && ret.End() <= loop.Body.End() {
+				inside++
+				if !isC || !v {
+					okIn, why = false, "a return inside the loop does not return the constant true"
+				} else if !excludedBy(guardsAt(fn, ret), elemFalse) {
+					okIn, why = false, "the loop returns true on a path where the element's own "+name+"() is not known to be true"
+				}
+			} else if !isC || v {
+				okOut, why = false, "the return after the loop is not the constant false"
+			}
+			return true
+		})
+		n++
+		c.Check(inside > 0 && okIn && okOut, fq+"|is-a-disjunction", pr.Pos(fn.Body.Pos()),
+			"Pragmas."+name+" no longer answers \"some element asks for it\" ("+why+"): a slice that carries the pragma together with another one is treated as if it did not carry it — for Materialize, pipeline() fuses across the boundary and every consumer recomputes the slice under different task names; for Exclusive, the task is not given the whole machine")
+	}
+	c.Floor("composed boolean pragmas", n, 2)
 }
